@@ -80,6 +80,8 @@ pub struct ProtoRec {
     /// configured by the harness (CONCRETE per instance): length of the reply when the stub
     /// answers; whether it answers at all stays symbolic
     pub cfg_reply_len: usize,
+    /// smack_state found in the control block handed to the stub (C08: whose block is it?)
+    pub tcb_seen_state: usize,
 }
 pub static mut PROTO_REC: ProtoRec = ProtoRec {
     calls: 0,
@@ -91,7 +93,9 @@ pub static mut PROTO_REC: ProtoRec = ProtoRec {
     transport: None,
     cookie: None,
     cfg_reply_len: 2,
+    tcb_seen_state: 0,
 };
+pub const STUB_MARK: usize = 0x00AB_CDEF;
 pub fn proto_rec() -> &'static mut ProtoRec {
     unsafe { &mut *std::ptr::addr_of_mut!(PROTO_REC) }
 }
@@ -104,6 +108,11 @@ pub fn proto_repl_stub<'a>(
     let rec = proto_rec();
     rec.calls += 1;
     rec.tcb_some = tcb.is_some();
+    if let Some(t) = tcb {
+        rec.tcb_seen_state = t.smack_state;
+        // leave a mark in the block we were given: a write into a foreign flow's block is detected
+        t.smack_state = STUB_MARK;
+    }
     rec.data_len = data.len();
     let mut i = 0;
     while i < data.len() && i < 8 {
@@ -193,6 +202,8 @@ pub struct L4Rec {
     pub bytes: [u8; L4_MAX],
     pub req_len: usize,
     pub nd_target: Option<Ipv6Addr>,
+    /// event sequence number (counting logger) when the stub was called
+    pub seq_at_call: u32,
     /// harness-configured: the self-IP list is present and contains `cfg_s6`
     pub cfg_s6: Option<Ipv6Addr>,
 }
@@ -203,6 +214,7 @@ pub static mut L4_REC: L4Rec = L4Rec {
     bytes: [0; L4_MAX],
     req_len: 0,
     nd_target: None,
+    seq_at_call: 0,
     cfg_s6: None,
 };
 pub fn l4_rec() -> &'static mut L4Rec {
@@ -211,6 +223,10 @@ pub fn l4_rec() -> &'static mut L4Rec {
 fn l4_bytes() -> Option<Vec<u8>> {
     let rec = l4_rec();
     rec.calls += 1;
+    rec.seq_at_call = unsafe {
+        EV_SEQ += 1;
+        EV_SEQ
+    };
     if kani::any() {
         let b: [u8; L4_MAX] = kani::any();
         rec.bytes = b;
@@ -377,4 +393,101 @@ pub fn system_time_now_stub() -> std::time::SystemTime {
     let s: u64 = kani::any();
     kani::assume(s < 16_725_225_600);
     std::time::SystemTime::UNIX_EPOCH + std::time::Duration::from_secs(s)
+}
+
+// ------------------------------------------------------------------------------------------
+// Counting logger (C20): implements the real `Logger` trait and is boxed into the real
+// `MetaLogger`; records per layer how many recv / send / drop events were emitted, a global
+// sequence number of the first recv and of the terminal event, and the ClientInfo shown.
+// ------------------------------------------------------------------------------------------
+pub const L_ARP: usize = 0;
+pub const L_ETH: usize = 1;
+pub const L_IPV4: usize = 2;
+pub const L_IPV6: usize = 3;
+pub const L_ICMPV4: usize = 4;
+pub const L_ICMPV6: usize = 5;
+pub const L_TCP: usize = 6;
+pub const L_UDP: usize = 7;
+#[derive(Copy, Clone)]
+pub struct Ev {
+    pub recv: u32,
+    pub send: u32,
+    pub drop: u32,
+    pub seq_recv: u32,
+    pub seq_term: u32,
+    pub ci_recv: Option<ClientInfo>,
+    pub ci_term: Option<ClientInfo>,
+}
+const EV0: Ev = Ev { recv: 0, send: 0, drop: 0, seq_recv: 0, seq_term: 0, ci_recv: None, ci_term: None };
+pub static mut EV: [Ev; 8] = [EV0; 8];
+pub static mut EV_SEQ: u32 = 0;
+pub fn ev(l: usize) -> &'static mut Ev {
+    unsafe { &mut (*std::ptr::addr_of_mut!(EV))[l] }
+}
+fn seq() -> u32 {
+    unsafe {
+        EV_SEQ += 1;
+        EV_SEQ
+    }
+}
+fn on_recv(l: usize, c: Option<&ClientInfo>) {
+    let e = ev(l);
+    e.recv += 1;
+    if e.recv == 1 {
+        e.seq_recv = seq();
+        e.ci_recv = c.copied();
+    }
+}
+fn on_term(l: usize, send: bool, c: Option<&ClientInfo>) {
+    let e = ev(l);
+    if send {
+        e.send += 1;
+    } else {
+        e.drop += 1;
+    }
+    e.seq_term = seq();
+    e.ci_term = c.copied();
+}
+/// exactly one recv, then exactly one terminal event, which is `send` iff a reply was produced
+pub fn balanced(l: usize, replied: bool) -> bool {
+    let e = ev(l);
+    e.recv == 1 && e.send + e.drop == 1 && (e.send == 1) == replied && e.seq_recv < e.seq_term
+}
+pub fn untouched(l: usize) -> bool {
+    let e = ev(l);
+    e.recv == 0 && e.send == 0 && e.drop == 0
+}
+pub struct CountLogger;
+impl crate::logger::Logger for CountLogger {
+    fn init(&self) {}
+    fn arp_recv(&self, _p: &pnet::packet::arp::ArpPacket) { on_recv(L_ARP, None) }
+    fn arp_drop(&self, _p: &pnet::packet::arp::ArpPacket) { on_term(L_ARP, false, None) }
+    fn arp_send(&self, _p: &pnet::packet::arp::MutableArpPacket) { on_term(L_ARP, true, None) }
+    fn eth_recv(&self, _p: &pnet::packet::ethernet::EthernetPacket, c: &ClientInfo) { on_recv(L_ETH, Some(c)) }
+    fn eth_drop(&self, _p: &pnet::packet::ethernet::EthernetPacket, c: &ClientInfo) { on_term(L_ETH, false, Some(c)) }
+    fn eth_send(&self, _p: &pnet::packet::ethernet::MutableEthernetPacket, c: &ClientInfo) { on_term(L_ETH, true, Some(c)) }
+    fn ipv4_recv(&self, _p: &pnet::packet::ipv4::Ipv4Packet, c: &ClientInfo) { on_recv(L_IPV4, Some(c)) }
+    fn ipv4_drop(&self, _p: &pnet::packet::ipv4::Ipv4Packet, c: &ClientInfo) { on_term(L_IPV4, false, Some(c)) }
+    fn ipv4_send(&self, _p: &pnet::packet::ipv4::MutableIpv4Packet, c: &ClientInfo) { on_term(L_IPV4, true, Some(c)) }
+    fn ipv6_recv(&self, _p: &pnet::packet::ipv6::Ipv6Packet, c: &ClientInfo) { on_recv(L_IPV6, Some(c)) }
+    fn ipv6_drop(&self, _p: &pnet::packet::ipv6::Ipv6Packet, c: &ClientInfo) { on_term(L_IPV6, false, Some(c)) }
+    fn ipv6_send(&self, _p: &pnet::packet::ipv6::MutableIpv6Packet, c: &ClientInfo) { on_term(L_IPV6, true, Some(c)) }
+    fn icmpv4_recv(&self, _p: &pnet::packet::icmp::IcmpPacket, c: &ClientInfo) { on_recv(L_ICMPV4, Some(c)) }
+    fn icmpv4_drop(&self, _p: &pnet::packet::icmp::IcmpPacket, c: &ClientInfo) { on_term(L_ICMPV4, false, Some(c)) }
+    fn icmpv4_send(&self, _p: &pnet::packet::icmp::MutableIcmpPacket, c: &ClientInfo) { on_term(L_ICMPV4, true, Some(c)) }
+    fn icmpv6_recv(&self, _p: &pnet::packet::icmpv6::Icmpv6Packet, c: &ClientInfo) { on_recv(L_ICMPV6, Some(c)) }
+    fn icmpv6_drop(&self, _p: &pnet::packet::icmpv6::Icmpv6Packet, c: &ClientInfo) { on_term(L_ICMPV6, false, Some(c)) }
+    fn icmpv6_send(&self, _p: &pnet::packet::icmpv6::MutableIcmpv6Packet, c: &ClientInfo) { on_term(L_ICMPV6, true, Some(c)) }
+    fn tcp_recv(&self, _p: &pnet::packet::tcp::TcpPacket, c: &ClientInfo) { on_recv(L_TCP, Some(c)) }
+    fn tcp_drop(&self, _p: &pnet::packet::tcp::TcpPacket, c: &ClientInfo) { on_term(L_TCP, false, Some(c)) }
+    fn tcp_send(&self, _p: &pnet::packet::tcp::MutableTcpPacket, c: &ClientInfo) { on_term(L_TCP, true, Some(c)) }
+    fn udp_recv(&self, _p: &pnet::packet::udp::UdpPacket, c: &ClientInfo) { on_recv(L_UDP, Some(c)) }
+    fn udp_drop(&self, _p: &pnet::packet::udp::UdpPacket, c: &ClientInfo) { on_term(L_UDP, false, Some(c)) }
+    fn udp_send(&self, _p: &pnet::packet::udp::MutableUdpPacket, c: &ClientInfo) { on_term(L_UDP, true, Some(c)) }
+}
+/// Masscanned context whose MetaLogger holds one CountLogger
+pub fn ms_counting<'a>(key: [u64; 2], mac: MacAddr) -> Masscanned<'a> {
+    let mut m = ms_plain(key, mac);
+    m.log.add(Box::new(CountLogger));
+    m
 }
